@@ -14,7 +14,9 @@ RULE = ("K: tiny closed periodic boxes (3..5 cells per axis, also non-cubic) bui
         "same arrays with the polarisation arrays removed), E/P_curr/P_prev at 1e-9; the polarisation history of "
         "sampled cells is compared with the model's pTraj; the real stability measure and the warnings of place_objects "
         "are compared with the model's measure/warns; a homogeneous box started in the grid-Nyquist mode is compared "
-        "with the model's nyqStep. Independent oracles on the real code: zero-coefficient cells update exactly like the "
+        "with the model's nyqStep (modes (pi,pi,pi), (pi,pi,0), (pi,0,0): curl eigenvalue 4 cf^2 sigma, sigma = 1, 2/3, 1/3); root "
+        "moduli of the model's per-mode characteristic polynomial for random DAMPED single-pole media with measure <= 1 (the "
+        "unproved part of sufficiency). Independent oracles on the real code: zero-coefficient cells update exactly like the "
         "non-dispersive twin; P_curr' = c1 P + c2 P_prev + c3 E (+ c4 E'); a run whose poles all have zero strength "
         "equals the plain run; media near the coupled stability bound either draw a warning or keep the field energy "
         "within 10x over 10^4 steps (random initial E). Multi-material scenes (two Spheres sharing one materials dict in shuffled / non-ascending order, "
@@ -287,15 +289,18 @@ def nyquist_check(ctx, sc):
     oc, arrays, cfg, wl, mats = build(scene)
     n = 4
     ii, jj, kk = np.meshgrid(range(n), range(n), range(n), indexing="ij")
-    pat = (-1.0) ** (ii + jj + kk)
-    ev = np.array([1.0, -1.0, 0.0]) / math.sqrt(2)
+    # Fourier mode k = (pi,pi,pi)/D (sigma = 1), (pi,pi,0)/D (sigma = 2/3) or (pi,0,0)/D (sigma = 1/3); E transverse
+    mode = sc.get("mode", "xyz")
+    pat, ev, sigma = {"xyz": ((-1.0) ** (ii + jj + kk), np.array([1.0, -1.0, 0.0]) / math.sqrt(2), 1.0),
+                      "xy": ((-1.0) ** (ii + jj), np.array([0.0, 0.0, 1.0]), 2.0 / 3.0),
+                      "x": ((-1.0) ** ii, np.array([0.0, 1.0, 0.0]), 1.0 / 3.0)}[mode]
     arrays = arrays.aset("fields->E", jnp.asarray(ev[:, None, None, None] * pat[None]))
     fwd, _ = stepper(oc, cfg)
     c1 = float(np.asarray(arrays.dispersive_c1).ravel()[0])
     c2 = float(np.asarray(arrays.dispersive_c2).ravel()[0])
     c3 = float(np.asarray(arrays.dispersive_c3).ravel()[0])
     inv_eps = float(np.asarray(arrays.inv_permittivities).ravel()[0])
-    kappa = 2.0 * sc["cf"]
+    kappa = 2.0 * sc["cf"] * math.sqrt(sigma)      # per-mode curl eigenvalue 4 cf^2 sigma (C36Suff.lean)
     traj = []
     hv = None
     for t in range(sc["steps"]):
@@ -688,8 +693,41 @@ def run(ctx):
         sc = {"cf": ctx.rng.uniform(0.3, 0.99), "eps": ctx.rng.choice([1.0, ctx.rng.uniform(1, 3)]), "pole": pole, "steps": 6}
         if i == 0:      # the Lean witness C36_nyquist_witness: amplitude doubles every step
             sc = {"cf": 0.75, "eps": 1.0, "pole": {"kind": "dru", "wp": 1.5, "g": 0.0}, "steps": 6}
-        ctx.case(nontrivial=("nyquist", i), op="nyquist")
+        sc["mode"] = ["xyz", "x", "xy"][i % 3]
+        ctx.case(nontrivial=("nyquist", i, sc["mode"]), op="nyquist", mode=sc["mode"])
         nyquist_check(ctx, sc)
+    # per-mode roots of damped single-pole media with measure <= 1 (the part of sufficiency that is NOT proved):
+    # numpy roots of the model's characteristic polynomial, tied to the model by evaluating its charPoly at the roots
+    from .common import f2h, h2f
+    lines, roots_of = [], []
+    for i in range(ctx.scale(150, 1500)):
+        w = ctx.rng.uniform(0.0, 1.99) if i % 2 else 0.0
+        g = ctx.rng.choice([ctx.rng.uniform(0.0, 0.3), ctx.rng.uniform(0.3, 6.0)])
+        eps = ctx.rng.uniform(1.0, 12.0)
+        nu2 = ctx.rng.uniform(0.05, 1.0) ** 2 / eps
+        meas = ctx.rng.choice([ctx.rng.uniform(nu2, 1.0), ctx.rng.uniform(0.97, 1.0)])
+        if meas <= nu2:
+            continue
+        k = (meas - nu2) * eps * (4 - w * w)
+        D = 1 + g / 2
+        c1, c2, c3 = (2 - w * w) / D, -(1 - g / 2) / D, k / D
+        sig = ctx.rng.choice([1.0, ctx.rng.uniform(0.0, 1.0)])
+        q = np.poly1d([1.0, -c1, -c2])
+        zm = np.poly1d([1.0, -1.0])
+        p = zm * zm * (q + np.poly1d([c3 / eps, 0.0])) + (np.poly1d([1.0, 0.0]) * q) * (4 * sig * nu2)
+        r = p.roots
+        ctx.impl_property_evals += 1
+        ctx.case(nontrivial=("mode-roots", i), op="mode-roots")
+        if float(np.max(np.abs(r))) > 1 + 1e-6:
+            ctx.violation({"kind": "mode-roots", "w": w, "g": g, "eps": eps, "nu2": nu2, "k": k, "sigma": sig},
+                          f"per-mode characteristic polynomial of an accepted damped medium (measure {meas:.4f}) has a root of modulus "
+                          f"{float(np.max(np.abs(r))):.6f} > 1")
+        z = float(np.real(r[int(np.argmin(np.abs(np.imag(r))))]))      # the most real root, evaluated in the model
+        lines.append("charpoly " + " ".join(f2h(x) for x in (sig * nu2, 1.0 / eps, c1, c2, c3, z)))
+        roots_of.append((p, z))
+    reps = ctx.driver.ask_many(lines)
+    for (p, z), rep in zip(roots_of, reps):
+        ctx.expect_close("charPoly", {"z": z}, [float(np.real(p(z)))], [h2f(rep)], tol=1e-9, floor=max(1.0, abs(z)) ** 4)
     # second clause: media around the coupled bound
     targets = ctx.scale([0.93, 0.985, 1.03, 1.25, 0.995, 0.97], [0.5, 0.8, 0.93, 0.97, 0.985, 0.988, 1.005, 1.03, 1.1, 1.25, 1.6, 2.5] * 2)
     for i, tg in enumerate(targets):
@@ -730,6 +768,14 @@ def replay(ctx, inp):
         return bounded_fail(inp["scene"])[0]
     if k == "zero-strength":
         return zero_strength_fail(inp["scene"])
+    if k == "mode-roots":
+        D = 1 + inp["g"] / 2
+        c1, c2, c3 = (2 - inp["w"] ** 2) / D, -(1 - inp["g"] / 2) / D, inp["k"] / D
+        q = np.poly1d([1.0, -c1, -c2])
+        zm = np.poly1d([1.0, -1.0])
+        p = zm * zm * (q + np.poly1d([c3 / inp["eps"], 0.0])) + (np.poly1d([1.0, 0.0]) * q) * (4 * inp["sigma"] * inp["nu2"])
+        r = float(np.max(np.abs(p.roots)))
+        return f"root modulus {r:.6f} > 1" if r > 1 + 1e-6 else None
     if k == "multi":
         sub = type(ctx)(ctx.pid, ctx.tier, ctx.seed)
         sub.driver = ctx.driver
